@@ -16,16 +16,16 @@ import (
 )
 
 type Program struct {
-	RepoDir  string
-	VerifDir string
-	Pkgs     map[string]*packages.Package // by short name: packet, modbus, server
-	SSA      *ssa.Program
-	SSAPkgs  map[string]*ssa.Package
-	Funcs    map[string]*ssa.Function // key: pkgshort.RelString e.g. "packet.CRC16", "packet.(Registers).Uint16"
-	Contracts map[string]*Contract
-	Specs    map[string]*SpecFun // key pkgshort.name and bare name
-	Ifaces   map[string]*Contract // interface method contracts: "net.Conn.Read"
-	LemmaFiles map[string]string // overlay target path -> source path
+	RepoDir       string
+	VerifDir      string
+	Pkgs          map[string]*packages.Package // by short name: packet, modbus, server
+	SSA           *ssa.Program
+	SSAPkgs       map[string]*ssa.Package
+	Funcs         map[string]*ssa.Function // key: pkgshort.RelString e.g. "packet.CRC16", "packet.(Registers).Uint16"
+	Contracts     map[string]*Contract
+	Specs         map[string]*SpecFun  // key pkgshort.name and bare name
+	Ifaces        map[string]*Contract // interface method contracts: "net.Conn.Read"
+	LemmaFiles    map[string]string    // overlay target path -> source path
 	ContractFiles []string
 }
 
